@@ -126,6 +126,19 @@ func wmSeq(c core.Case, res *core.Result) {
 		w.Done(t)
 		m.apply(t, true)
 		trace = append(trace, fmt.Sprintf("Done(%d)!", t))
+		if r.Intn(2) == 0 {
+			// ... and, as the first reader after a restart does, Begin of that very index: it is
+			// unfinished now (a Done only counts against an earlier Begin) and holds the mark back
+			w.Begin(t)
+			m.apply(t, false)
+			open = append(open, t)
+			trace = append(trace, fmt.Sprintf("Begin(%d)", t))
+			w.Begin(t + 1)
+			m.apply(t+1, false)
+			w.Done(t + 1)
+			m.apply(t+1, true)
+			trace = append(trace, fmt.Sprintf("Begin(%d) Done(%d)", t+1, t+1))
+		}
 	}
 	for i := 0; i < n && res.Verdict == ""; i++ {
 		x := r.Intn(100)
